@@ -29,7 +29,7 @@ fn background<T: Elem>(rng: &mut Rng, class: u64, bounds: &[T]) -> T {
                 let top = 1u64 << (T::BITS - 1);
                 T::from_bits(top | (rng.next_u64() & (top - 1)))
             }
-        },
+        }
         // all positive, small
         2 => {
             if T::FLOAT {
@@ -38,22 +38,34 @@ fn background<T: Elem>(rng: &mut Rng, class: u64, bounds: &[T]) -> T {
             } else {
                 T::from_bits(rng.below(100))
             }
-        },
+        }
         3 => *rng.pick(bounds),
         // near-equal cluster
         _ => {
             if T::FLOAT {
-                T::from_f64(1.0 + rng.below(8) as f64 * if T::BITS == 32 { 1.1920929e-7 } else { 2.220446049250313e-16 })
+                T::from_f64(
+                    1.0 + rng.below(8) as f64
+                        * if T::BITS == 32 {
+                            1.1920929e-7
+                        } else {
+                            2.220446049250313e-16
+                        },
+                )
             } else {
                 let base = T::from_bits((T::highest().to_bits() / 2).wrapping_sub(4));
                 base.w_add(T::from_bits(rng.below(8)))
             }
-        },
+        }
     }
 }
 
-const CLASSES: [&str; 5] =
-    ["class:random_bits", "class:negative_or_high_half", "class:small_positive", "class:boundaries", "class:near_equal"];
+const CLASSES: [&str; 5] = [
+    "class:random_bits",
+    "class:negative_or_high_half",
+    "class:small_positive",
+    "class:boundaries",
+    "class:near_equal",
+];
 
 fn horizontal<T: Elem>(ctx: &mut Ctx, t: Target<T>) {
     let tier = ctx.tier;
@@ -84,7 +96,11 @@ fn horizontal<T: Elem>(ctx: &mut Ctx, t: Target<T>) {
         if e == limit {
             // pull every copy of the limit back by one step, then the extreme is the limit itself
             let second = if T::FLOAT {
-                if is_max { T::from_f64(if T::BITS == 32 { f32::MAX as f64 } else { f64::MAX }) } else { T::from_f64(if T::BITS == 32 { f32::MIN as f64 } else { f64::MIN }) }
+                if is_max {
+                    T::from_f64(if T::BITS == 32 { f32::MAX as f64 } else { f64::MAX })
+                } else {
+                    T::from_f64(if T::BITS == 32 { f32::MIN as f64 } else { f64::MIN })
+                }
             } else if is_max {
                 limit.w_sub(T::one())
             } else {
@@ -99,16 +115,34 @@ fn horizontal<T: Elem>(ctx: &mut Ctx, t: Target<T>) {
         } else if T::FLOAT {
             // next representable step towards the limit (or the limit itself)
             let f = e.to_f64();
-            let step = if rng.chance(1, 4) { limit } else { T::from_f64(if is_max { f + f.abs() * 0.5 + 1.0 } else { f - f.abs() * 0.5 - 1.0 }) };
+            let step = if rng.chance(1, 4) {
+                limit
+            } else {
+                T::from_f64(if is_max {
+                    f + f.abs() * 0.5 + 1.0
+                } else {
+                    f - f.abs() * 0.5 - 1.0
+                })
+            };
             a[k] = step;
         } else {
-            a[k] = if rng.chance(1, 4) { limit } else if is_max { e.w_add(T::one()) } else { e.w_sub(T::one()) };
+            a[k] = if rng.chance(1, 4) {
+                limit
+            } else if is_max {
+                e.w_add(T::one())
+            } else {
+                e.w_sub(T::one())
+            };
         }
         a
     };
     for &len in &lens {
         for class in 0..5u64 {
-            let ks: Vec<usize> = if len == 0 { vec![0] } else { vec![0, len / 2, len - 1] };
+            let ks: Vec<usize> = if len == 0 {
+                vec![0]
+            } else {
+                vec![0, len / 2, len - 1]
+            };
             for k in ks {
                 let a = build(&mut rng, len, k, class);
                 run.go(T::zero(), a, Vec::new());
